@@ -70,6 +70,7 @@ type Case struct {
 	Mount    bool          `json:"mount"`    // the destination also implements registry.Mounter; MountFrom returns candidates
 	CbSet    string        `json:"cbset"`    // which of PreCopy PostCopy OnCopySkipped OnMounted MountFrom are set, 5 x 0|1 ("" = all set)
 	FindSucc bool          `json:"findsucc"` // FindSuccessors set (to a function calling content.Successors) instead of nil
+	Fast     bool          `json:"fast"`     // latencies are yields only (no sleeps): the small-scope enumeration
 	Sched    bool          `json:"sched"`    // run under testing/synctest with a PRNG-controlled scheduler
 	Thorough bool          `json:"thorough"` // generated with the thorough-tier size distribution
 }
@@ -97,6 +98,7 @@ type rec struct {
 	lmu    sync.Mutex
 	lat    *common.Rand
 	bytes  [][]byte // generator's bytes per node (what a successful mount makes available)
+	fast   bool
 	sched  *sched   // controlled schedules: every delay point parks until the scheduler releases it
 }
 
@@ -133,6 +135,9 @@ func (r *rec) delay() {
 	v := r.lat.Intn(12)
 	a := r.lat.Intn(64)
 	r.lmu.Unlock()
+	if r.fast && v >= 8 {
+		v = 4
+	}
 	switch {
 	case v < 4:
 	case v < 8:
@@ -613,7 +618,7 @@ func Execute(c *Case) *Result {
 			return nil
 		}
 	}
-	r := &rec{idx: map[dkeyT]int{}, lat: common.NewRand(c.Seed)}
+	r := &rec{idx: map[dkeyT]int{}, lat: common.NewRand(c.Seed), fast: c.Fast}
 	for _, n := range g.Nodes {
 		if _, dup := r.idx[keyOf(n.Desc)]; dup {
 			res.SetupErr = fmt.Errorf("generator produced two nodes with the same descriptor (node %d)", n.ID)
